@@ -288,6 +288,12 @@ pub fn generate(seed: u64, property: &str, thorough: bool) -> Trace {
                         let target = *rw.pick(&p);
                         if k == 3 {
                             steps.push(Step::RefAdd { node, row, target, dt });
+                            // the source row updated on another node, often in the same millisecond as the reference is added
+                            if rw.chance(1, 3) && nodes > 1 {
+                                let other = (node + 1 + rw.usize(nodes - 1)) % nodes;
+                                let dt2 = if rw.chance(2, 3) { 0 } else { gen_dt(&mut rw, day_bias) };
+                                steps.push(Step::Update { node: other, row, text: gen_text(&mut rw), dt: dt2 });
+                            }
                         } else {
                             steps.push(Step::RefDel { node, row, target, dt });
                         }
@@ -470,6 +476,22 @@ pub fn directed(property: &str) -> Vec<Trace> {
             ));
         }
         "C03" => {
+            for (adder, other) in [(0usize, 1usize), (1, 0)] {
+                out.push(mk(
+                    "C03 a reference added on one peer and the source row renamed on the other in the same millisecond",
+                    2,
+                    vec![
+                        Step::Create { node: 0, row: 0, room: 0, ent: 0, text: "alpha v1".into(), dt: 1 },
+                        Step::Create { node: 0, row: 1, room: 0, ent: 0, text: "bravo7 v1".into(), dt: 1 },
+                        pull(1, 0),
+                        Step::RefAdd { node: adder, row: 0, target: 1, dt: 1000 },
+                        Step::Update { node: other, row: 0, text: "delta v2".into(), dt: 0 },
+                        pull(other, adder),
+                        pull(adder, other),
+                    ],
+                    vec!["C03"],
+                ));
+            }
             out.push(mk(
                 "C03 same row updated on A and B in the same millisecond; C pulls both",
                 3,
@@ -1749,6 +1771,10 @@ fn check_c03_equal(c: &mut Ctx) -> Result<(), String> {
                     let cdate: i64 = diff.split(" c=").nth(1).map(|s| s.split(' ').next().unwrap_or("0")).unwrap_or("0").parse().unwrap_or(0);
                     let m0 = d0.nodes.iter().find(|n| crate::kit::hex(&n.id) == src).map(|n| (n.mdate, n.signature.clone()));
                     let m1 = d.nodes.iter().find(|n| crate::kit::hex(&n.id) == src).map(|n| (n.mdate, n.signature.clone()));
+                    // same millisecond: the version that carried the reference lost the tie against a version written by somebody else
+                    let edge_author = diff.split(" a=").nth(1).map(|s| s.split(' ').next().unwrap_or("")).unwrap_or("").to_string();
+                    let source_author = d0.nodes.iter().find(|n| crate::kit::hex(&n.id) == src).map(|n| crate::kit::hex(&n.author)[..12].to_string()).unwrap_or_default();
+                    let lost_the_tie = m0.as_ref().map(|a| cdate == a.0).unwrap_or(false) && edge_author != source_author;
                     // or does it point to a row that one peer deleted while another wrote a newer version of it (the row
                     // comes back everywhere, the references the deletion removed locally do not)?
                     let dest = diff.split("dest=").nth(1).map(|s| s.split(' ').next().unwrap_or("")).unwrap_or("");
@@ -1766,7 +1792,7 @@ fn check_c03_equal(c: &mut Ctx) -> Result<(), String> {
                     }
                     match (m0, m1) {
                         (Some(a), Some(b)) if a == b && target_was_deleted => "reference-to-a-row-deleted-on-one-peer-that-came-back-with-a-newer-version",
-                        (Some(a), Some(b)) if a == b && cdate < a.0 => "reference-added-with-a-source-version-that-lost",
+                        (Some(a), Some(b)) if a == b && (cdate < a.0 || lost_the_tie) => "reference-added-with-a-source-version-that-lost",
                         (Some(a), Some(b)) if a == b => "reference-missing-same-source-version",
                         _ => "source-row-differs",
                     }
